@@ -1085,7 +1085,7 @@ def r8_2(rep):
         b = gen[0]
         tail = rep.need(b.root.get("tail"), "tail expression of " + b.path)
         got = []
-        for a, p, node in atoms_of(b, tail):
+        for a, p, node in atoms_of(b, tail) + [g for g in qq.guard_atoms(b, tail) if isinstance(g[2], dict) and g[2].get("k") != "Match"]:
             c = classify(b, a, p, node)
             if c[0] == "analysis":
                 # bool lookups are used as-is (positive); CanDerive lookups must be compared `== Yes`
@@ -1492,7 +1492,7 @@ def conds_text(b, gs):
     return [("" if pol else "!") + b.canon(g, 4) for pol, kind, g in gs if kind == "cond"]
 
 
-@RULES.rule("R8.4", "derives_of_item, forward declarations and the hand-written Default/Clone/Debug/PartialEq impls", floor=74)
+@RULES.rule("R8.4", "derives_of_item, forward declarations and the hand-written Default/Clone/Debug/PartialEq impls", floor=73)
 def r8_4(rep):
     """Structure of `derives_of_item` (each DerivableTraits bit is set only under the matching CanDerive* answer and
     the per-item annotation; a packed type that is not Copy derives nothing at all — `#[derive(Debug)]` on a
